@@ -716,10 +716,14 @@ func parseRaces(logPrefix string, focus []string) (vs []violation, outside []str
 				continue
 			}
 			var frames []string
+			var accessLines []string // function and file lines of the two access stacks
 			inAccess := false
 			got := false
 			for _, line := range strings.Split(block, "\n") {
 				t := strings.TrimSpace(line)
+				if inAccess && !strings.HasPrefix(t, "Goroutine ") {
+					accessLines = append(accessLines, t)
+				}
 				switch {
 				case strings.HasPrefix(t, "Read at"), strings.HasPrefix(t, "Write at"), strings.HasPrefix(t, "Previous read"), strings.HasPrefix(t, "Previous write"),
 					strings.HasPrefix(t, "Atomic read"), strings.HasPrefix(t, "Atomic write"), strings.HasPrefix(t, "Previous atomic"):
@@ -741,11 +745,21 @@ func parseRaces(logPrefix string, focus []string) (vs []violation, outside []str
 				continue
 			}
 			seen[fp] = true
+			// a focus entry matches the innermost keep-core frame of an access or any
+			// function / source file line of the two access stacks (so "pkg/x/file.go"
+			// covers helper functions the racing code was moved into)
 			match := len(focus) == 0
 			for _, fo := range focus {
 				for _, fr := range frames {
 					if strings.Contains(fr, fo) {
 						match = true
+					}
+				}
+				if strings.Contains(fo, ".go") {
+					for _, l := range accessLines {
+						if strings.Contains(l, fo) {
+							match = true
+						}
 					}
 				}
 			}
